@@ -18,16 +18,16 @@ theorem closeAll_shape (now : U32) (ids : List Nat) : ∀ l : Listener SessG,
     exact ⟨h1.trans (C11_closeSess_length _ l id), h2.trans (closeSess_accepts _ l id)⟩
 
 /-- the queue and the object list after `inputD`: unchanged, or both grown by the fresh index -/
-theorem inputD_shape (now : U32) (l : Listener SessG) (dead : Bool) (d : Bytes) (a : String) :
-    ((inputD now l dead d a).accepts = l.accepts ∧ (inputD now l dead d a).objs.length = l.objs.length) ∨
-    ((inputD now l dead d a).accepts = l.accepts ++ [l.objs.length] ∧
-      (inputD now l dead d a).objs.length = l.objs.length + 1) := by
-  have live : ((listenerInput (world now) plain l d a).l.accepts = l.accepts ∧
-        (listenerInput (world now) plain l d a).l.objs.length = l.objs.length) ∨
-      ((listenerInput (world now) plain l d a).l.accepts = l.accepts ++ [l.objs.length] ∧
-        (listenerInput (world now) plain l d a).l.objs.length = l.objs.length + 1) := by
-    have h := C11_accept_step (world now) plain l d a
-    cases hc : isCreate (listenerInput (world now) plain l d a).dec with
+theorem inputD_shape (ciph : Cipher) (now : U32) (l : Listener SessG) (dead : Bool) (d : Bytes) (a : String) :
+    ((inputD ciph now l dead d a).accepts = l.accepts ∧ (inputD ciph now l dead d a).objs.length = l.objs.length) ∨
+    ((inputD ciph now l dead d a).accepts = l.accepts ++ [l.objs.length] ∧
+      (inputD ciph now l dead d a).objs.length = l.objs.length + 1) := by
+  have live : ((listenerInput (world now) ciph l d a).l.accepts = l.accepts ∧
+        (listenerInput (world now) ciph l d a).l.objs.length = l.objs.length) ∨
+      ((listenerInput (world now) ciph l d a).l.accepts = l.accepts ++ [l.objs.length] ∧
+        (listenerInput (world now) ciph l d a).l.objs.length = l.objs.length + 1) := by
+    have h := C11_accept_step (world now) ciph l d a
+    cases hc : isCreate (listenerInput (world now) ciph l d a).dec with
     | true => exact Or.inr ⟨(h.1 hc).1, (h.1 hc).2.1⟩
     | false => exact Or.inl (h.2 hc)
   unfold inputD
@@ -40,11 +40,11 @@ theorem inputD_shape (now : U32) (l : Listener SessG) (dead : Bool) (d : Bytes) 
     · exact Or.inl ⟨rfl, rfl⟩
     · exact live
 
-theorem accOk_inputD {s : Sys} (h : AccOk s) (now : U32) (d : Bytes) (a : String) :
-    AccOk { s with l := inputD now s.l s.dead d a } := by
+theorem accOk_inputD {s : Sys} (h : AccOk s) (ciph : Cipher) (now : U32) (d : Bytes) (a : String) :
+    AccOk { s with l := inputD ciph now s.l s.dead d a } := by
   intro id hid
-  show id < (inputD now s.l s.dead d a).objs.length
-  rcases inputD_shape now s.l s.dead d a with ⟨h1, h2⟩ | ⟨h1, h2⟩
+  show id < (inputD ciph now s.l s.dead d a).objs.length
+  rcases inputD_shape ciph now s.l s.dead d a with ⟨h1, h2⟩ | ⟨h1, h2⟩
   · rw [h2]
     rcases hid with hid | hid
     · exact h id (Or.inl hid)
@@ -57,7 +57,8 @@ theorem accOk_inputD {s : Sys} (h : AccOk s) (now : U32) (d : Bytes) (a : String
       · exact Nat.lt_succ_of_lt (h id (Or.inr h3))
       · rw [List.mem_singleton.mp h3]; exact Nat.lt_succ_self _
 
-theorem accOk_step (honest : String → Bool) {s : Sys} (h : AccOk s) (e : IEv) : AccOk (step honest s e) := by
+theorem accOk_step (ciph : Cipher) (honest : String → Bool) {s : Sys} (h : AccOk s) (e : IEv) :
+    AccOk (step ciph honest s e) := by
   cases e with
   | connect a c =>
     cases hc : s.clients a c with
@@ -67,17 +68,21 @@ theorem accOk_step (honest : String → Bool) {s : Sys} (h : AccOk s) (e : IEv) 
     cases hc : s.clients a c with
     | none => simp only [step, hc]; exact h
     | some g => simp only [step, hc]; exact h
-  | deliver a c i now =>
+  | deliver a c i wrap now =>
     cases hc : s.clients a c with
     | none => simp only [step, hc]; exact h
     | some g =>
       cases hd : g.wire[i]? with
       | none => simp only [step, hc, hd]; exact h
-      | some d => simp only [step, hc, hd]; exact accOk_inputD h now d a
+      | some d =>
+        simp only [step, hc, hd]
+        split
+        · exact accOk_inputD h ciph now (wrap d) a
+        · exact h
   | forge b data now =>
     cases hb : honest b with
     | true => simp only [step, hb, if_true]; exact h
-    | false => simp only [step, hb, Bool.false_eq_true, if_false]; exact accOk_inputD h now data b
+    | false => simp only [step, hb, Bool.false_eq_true, if_false]; exact accOk_inputD h ciph now data b
   | accept =>
     cases hq : s.l.accepts with
     | nil =>
@@ -122,10 +127,11 @@ theorem accOk_step (honest : String → Bool) {s : Sys} (h : AccOk s) (e : IEv) 
       · exact h j (Or.inl hj)
       · cases hj
 
-theorem accOk_run (honest : String → Bool) (evs : List IEv) : ∀ s : Sys, AccOk s → AccOk (run honest s evs) := by
+theorem accOk_run (ciph : Cipher) (honest : String → Bool) (evs : List IEv) :
+    ∀ s : Sys, AccOk s → AccOk (run ciph honest s evs) := by
   induction evs with
   | nil => intro s h; exact h
-  | cons e rest ih => intro s h; exact ih _ (accOk_step honest h e)
+  | cons e rest ih => intro s h; exact ih _ (accOk_step ciph honest h e)
 
 theorem accOk_init : AccOk {} := by
   intro id hid
